@@ -189,6 +189,11 @@ func (s *sharedEntryAttributes) toXmlInternal(parent *etree.Element, onlyNewOrUp
 				// so we keep track via overAllDoAdd
 				overallDoAdd = doAdd || overallDoAdd
 			}
+			// a presence container that carries a value of its own is rendered
+			// also if none of its childs is
+			if !overallDoAdd && s.parent != nil && s.schema.GetContainer().IsPresence && s.presenceValueToRender(onlyNewOrUpdated) {
+				overallDoAdd = true
+			}
 			// so if there is at least a child and the s.parent is not nil (root node)
 			// then add p to the parent as a child
 			if overallDoAdd && s.parent != nil {
